@@ -21,7 +21,10 @@ CONSTANTS
     GenKind,    \* "int" (1, 2, 3, ...), "user" (UserIds), "uuid" (any fresh non-null)
     UserIds,    \* ids a user-supplied generator hands out, in order
     Vals,       \* [type |-> set of tokens] written by the value alphabet (model checking only)
-    Alpha       \* which groups of calls the value alphabet contains (model checking only)
+    Alpha,      \* which groups of calls the value alphabet contains (model checking only)
+    RealNorm,   \* [real token |-> the token of its six-decimal form] (serialisation keeps six decimals)
+    RowChoices, \* rows a loaded population is made of (model checking only)
+    MaxRows     \* bound on the length of a loaded population (model checking only)
 
 VARIABLES
     pool,       \* [class -> sequence of live ordinals, storage order]
@@ -248,6 +251,103 @@ Delete(c, i) ==
          /\ UNCHANGED <<born, val, gen, used, pk>>
 
 -----------------------------------------------------------------------------
+(* Loading (xtuml.load.ModelLoader.build_metamodel): instances are created in    *)
+(* statement order with the values of their rows; a referring instance is linked *)
+(* to a referred instance of an association exactly when every referential value *)
+(* is non-null and equals the corresponding identifying value (a relational      *)
+(* join, no multiplicity check); afterwards referential values are read through  *)
+(* the links.  A row is [c |-> class, v |-> [attribute |-> token]] ("unset" for  *)
+(* a value that a named insert omits).                                           *)
+IsNullTok(ty, v) == v = "unset" \/ (ty = "UNIQUE_ID" /\ v = "u:0") \/ (ty = "STRING" /\ v = "s:")
+RowsOf(c, rows) == SelectSeq(rows, LAMBDA r : r.c = c)
+Matches(a, srow, trow) ==
+    \A k \in DOMAIN Assocs[a].skeys :
+        LET sv == srow.v[Assocs[a].skeys[k]]
+            tv == trow.v[Assocs[a].tkeys[k]]
+        IN /\ ~IsNullTok(AttrType(Src(a), Assocs[a].skeys[k]), sv)
+           /\ ~IsNullTok(AttrType(Tgt(a), Assocs[a].tkeys[k]), tv)
+           /\ sv = tv
+Upto(n) == [i \in 1..n |-> i]
+
+LoadBuild(rows, g2) ==
+    LET R(c) == RowsOf(c, rows) IN
+    /\ \A c \in ClassSet : Len(R(c)) <= MaxI
+    /\ pool' = [c \in ClassSet |-> Upto(Len(R(c)))]
+    /\ born' = [c \in ClassSet |-> Len(R(c))]
+    /\ val' = [c \in ClassSet |-> [i \in Ord |->
+                  IF i <= Len(R(c)) THEN [n \in Rng(NonRef(c)) |-> R(c)[i].v[n]] ELSE <<>>]]
+    /\ fwd' = [a \in AIdx |-> [t \in Ord |->
+                  IF t <= Len(R(Tgt(a)))
+                  THEN SelectSeq(Upto(Len(R(Src(a)))), LAMBDA s : Matches(a, R(Src(a))[s], R(Tgt(a))[t]))
+                  ELSE <<>>]]
+    /\ bwd' = [a \in AIdx |-> [s \in Ord |->
+                  IF s <= Len(R(Src(a)))
+                  THEN SelectSeq(Upto(Len(R(Tgt(a)))), LAMBDA t : Matches(a, R(Src(a))[s], R(Tgt(a))[t]))
+                  ELSE <<>>]]
+    /\ gen' = g2 /\ used' = {} /\ pk' = ""
+    /\ res' = "none"
+
+(* Creating a row through the API with referential values (MetaClass.new with     *)
+(* referential arguments, MetaModel.clone): the instance gets its non-referential *)
+(* values and is related to every existing referred instance whose identifying   *)
+(* values match its non-null referential values.  The API relates with the       *)
+(* multiplicity check, which loading does not have: when a match would give a    *)
+(* single-valued end a second partner the call is outside the domain of C03.     *)
+RowAsRef(c, i, row) == [c |-> c, v |-> [n \in Rng(AttrNames(c)) |-> IF n \in DOMAIN row.v THEN row.v[n] ELSE "unset"]]
+RowOfInst(c, i) == [c |-> c, v |-> [n \in Rng(AttrNames(c)) |-> Read(c, i, n)]]
+Partners(a, row) == SelectSeq(pool[Tgt(a)], LAMBDA t : Matches(a, row, RowOfInst(Tgt(a), t)))
+NewRow(row, g2) ==
+    LET c == row.c
+        i == born[c] + 1
+        mine == {a \in AIdx : Src(a) = c}
+        over == \E a \in mine : \/ (Len(Partners(a, row)) > 1 /\ ~Assocs[a].tmany)
+                                 \/ \E k \in DOMAIN Partners(a, row) :
+                                       fwd[a][Partners(a, row)[k]] # <<>> /\ ~Assocs[a].smany
+    IN /\ born[c] < MaxI
+       /\ IF over THEN res' = "OutOfDomain" /\ UNCHANGED mvars
+          ELSE /\ born' = [born EXCEPT ![c] = i]
+               /\ pool' = [pool EXCEPT ![c] = Append(@, i)]
+               /\ val' = [val EXCEPT ![c][i] = [n \in Rng(NonRef(c)) |-> row.v[n]]]
+               /\ fwd' = [a \in AIdx |-> [t \in Ord |->
+                             IF a \in mine /\ InSeq(t, Partners(a, row)) THEN Append(fwd[a][t], i) ELSE fwd[a][t]]]
+               /\ bwd' = [a \in AIdx |-> [s \in Ord |->
+                             IF a \in mine /\ s = i THEN Partners(a, row) ELSE bwd[a][s]]]
+               /\ gen' = g2 /\ UNCHANGED <<used, pk>>
+               /\ res' = "none"
+
+\* what serialisation writes for a value: an unset value becomes the null value of
+\* its type, a real its six-decimal form
+NullTok(ty) == CASE ty = "UNIQUE_ID" -> "u:0" [] ty = "STRING" -> "s:" [] ty = "INTEGER" -> "i:0"
+                 [] ty = "REAL" -> "r:0.0" [] ty = "BOOLEAN" -> "b:0" [] OTHER -> "?"
+SerTok(ty, v) == IF v = "unset" THEN NullTok(ty)
+                 ELSE IF ty = "REAL" /\ v \in DOMAIN RealNorm THEN RealNorm[v] ELSE v
+RECURSIVE Flatten(_)
+Flatten(qs) == IF qs = <<>> THEN <<>> ELSE Head(qs) \o Flatten(Tail(qs))
+\* the rows a serialisation of the current model consists of (classes in definition
+\* order, instances in pool order, every attribute through a read)
+SavedRows == Flatten([k \in DOMAIN Classes |->
+                 LET c == Classes[k] IN
+                 [j \in DOMAIN pool[c] |->
+                     [c |-> c, v |-> [n \in Rng(AttrNames(c)) |-> SerTok(AttrType(c, n), Read(c, pool[c][j], n))]]]])
+NoAbsent == \A c \in ClassSet : \A i \in Live(c) : \A n \in DOMAIN val[c][i] : val[c][i][n] # "absent"
+
+\* persisting the model and loading the text again
+SaveLoad(g2) == NoAbsent /\ LoadBuild(SavedRows, g2)
+
+(* The persistable domain of C01: every link is what the join of the written     *)
+(* values gives back, i.e. referred keys are non-null and unique among the       *)
+(* referred class, and the identifying values are themselves stored.             *)
+Persistable ==
+    /\ NoAbsent
+    /\ \A a \in AIdx :
+          /\ \A t1, t2 \in Live(Tgt(a)) :
+                (t1 # t2 /\ (fwd[a][t1] # <<>> \/ fwd[a][t2] # <<>>)) =>
+                   \E k \in DOMAIN Assocs[a].tkeys : Read(Tgt(a), t1, Assocs[a].tkeys[k]) # Read(Tgt(a), t2, Assocs[a].tkeys[k])
+          /\ \A t \in Live(Tgt(a)) : fwd[a][t] # <<>> =>
+                \A k \in DOMAIN Assocs[a].tkeys :
+                    ~IsNullTok(AttrType(Tgt(a), Assocs[a].tkeys[k]), Read(Tgt(a), t, Assocs[a].tkeys[k]))
+
+-----------------------------------------------------------------------------
 (* The history alphabet of C02: creation with defaults, relate / unrelate in    *)
 (* both argument orders with every known and one unknown association number and *)
 (* phrase, None arguments, delete (also of an already deleted instance).        *)
@@ -305,6 +405,10 @@ VGenPeek == "gen" \in Alpha /\ GenKind # "uuid" /\ GenPeek(GenId(gen + 1))
 VRelate(x, y, r, p) == "link" \in Alpha /\ r # "R99" /\ p # "bogus" /\ HRelate(x, y, r, p)
 VUnrelate(x, y, r, p) == "link" \in Alpha /\ r # "R99" /\ p # "bogus" /\ HUnrelate(x, y, r, p)
 VDelete(x) == "delete" \in Alpha /\ HDelete(x)
+\* loading a population (only as the first step) and persisting + reloading the model
+Populations == UNION {[1..n -> RowChoices] : n \in 0..MaxRows}
+VLoad(rows) == "load" \in Alpha /\ (\A c \in ClassSet : born[c] = 0) /\ gen = 0 /\ LoadBuild(rows, 0)
+VSaveLoad == "save" \in Alpha /\ SaveLoad(gen)
 
 NextVal ==
     \/ \E c \in ClassSet : \E pos \in PosSetC(c) : \E kw \in KwSetC(c) : VNew(c, pos, kw)
@@ -313,8 +417,42 @@ NextVal ==
     \/ VGenNext \/ VGenPeek
     \/ \E x \in AllInsts, y \in AllInsts, r \in RelIds, p \in PhraseSet : VRelate(x, y, r, p) \/ VUnrelate(x, y, r, p)
     \/ \E x \in AllInsts : VDelete(x)
+    \/ \E rows \in Populations : VLoad(rows)
+    \/ VSaveLoad
 
 SpecVal == Init /\ [][NextVal]_vars
+
+(* C03: loading links exactly the key-matching pairs, whatever the statement order *)
+JoinPairs(a, rows) == {p \in (DOMAIN rows) \X (DOMAIN rows) :
+                          rows[p[1]].c = Src(a) /\ rows[p[2]].c = Tgt(a) /\ Matches(a, rows[p[1]], rows[p[2]])}
+\* position of the i-th row of class c within rows
+RowIndex(c, i, rows) == CHOOSE k \in DOMAIN rows :
+                           rows[k].c = c /\ Cardinality({j \in 1..k : rows[j].c = c}) = i
+LoadIsJoin ==
+    [][\A rows \in Populations : VLoad(rows) =>
+          \A a \in AIdx :
+             \A s \in 1..born'[Src(a)], t \in 1..born'[Tgt(a)] :
+                    (InSeq(s, fwd'[a][t]) <=> <<RowIndex(Src(a), s, rows), RowIndex(Tgt(a), t, rows)>> \in JoinPairs(a, rows))
+                 /\ (InSeq(t, bwd'[a][s]) <=> <<RowIndex(Src(a), s, rows), RowIndex(Tgt(a), t, rows)>> \in JoinPairs(a, rows))]_vars
+\* the join does not depend on the order of the statements
+Perms(n) == {f \in [1..n -> 1..n] : \A i, j \in 1..n : f[i] = f[j] => i = j}
+PermutationInvariant ==
+    \A rows \in Populations : \A f \in Perms(Len(rows)) : \A a \in AIdx :
+        JoinPairs(a, [i \in 1..Len(rows) |-> rows[f[i]]]) = {p \in (DOMAIN rows) \X (DOMAIN rows) : <<f[p[1]], f[p[2]]>> \in JoinPairs(a, rows)}
+
+(* C01: persisting and loading a persistable model gives the same model back    *)
+(* (instances renumbered in pool order, unset = null of the type, reals to six  *)
+(* decimals); links compared as sets.                                           *)
+SaveLoadIdentity ==
+    [][(VSaveLoad /\ Persistable) =>
+         /\ \A c \in ClassSet :
+               /\ Len(pool'[c]) = Len(pool[c])
+               /\ \A j \in DOMAIN pool[c] : \A n \in Rng(AttrNames(c)) :
+                     SerTok(AttrType(c, n), Read(c, j, n)') = SerTok(AttrType(c, n), Read(c, pool[c][j], n))
+         /\ \A a \in AIdx : \A j \in DOMAIN pool[Tgt(a)] : \A k \in DOMAIN pool[Src(a)] :
+               InSeq(k, fwd'[a][j]) <=> InSeq(pool[Src(a)][k], fwd[a][pool[Tgt(a)][j]])
+         /\ \A a \in AIdx : \A k \in DOMAIN pool[Src(a)] : \A j \in DOMAIN pool[Tgt(a)] :
+               InSeq(j, bwd'[a][k]) <=> InSeq(pool[Tgt(a)][j], bwd[a][pool[Src(a)][k]])]_vars
 
 \* every stored value is addressed by its declared name only (C10): the state has
 \* exactly one entry per non-referential attribute of every instance ever created
